@@ -53,8 +53,9 @@ pub fn policy(_tier: Tier, w: &Arc<World>) -> Scn {
         std::fs::write(dir.join("b.bin"), &long).unwrap();
         std::fs::create_dir_all(dir.join("sub")).unwrap();
         std::fs::write(dir.join("sub/c.bin"), content(1300, 13)).unwrap();
+        std::fs::write(dir.join("empty.bin"), b"").unwrap();
     }
-    let names = ["a.bin", "b.bin", "sub/c.bin", "new1.bin", "new2.bin", "sub/new.bin", "missing.bin", "/a.bin", "sub\\c.bin", "nodir/missing.bin", "a.bin/x.bin", "sub/deeper/none.bin"];
+    let names = ["a.bin", "b.bin", "sub/c.bin", "new1.bin", "new2.bin", "sub/new.bin", "missing.bin", "/a.bin", "sub\\c.bin", "nodir/missing.bin", "a.bin/x.bin", "sub/deeper/none.bin", "empty.bin", "new1.bin"];
     let n = 2 + d.range("swarm.requests", 5) as usize;
     let mut reqs: Vec<ReqInfo> = vec![];
     let mut desc = format!("policy {} distinct_dirs={distinct} requests=[", srv.describe());
@@ -81,8 +82,15 @@ pub fn policy(_tier: Tier, w: &Arc<World>) -> Scn {
         xc.resend_request = false;
         xc.retries = 3;
         let sent_opts = xc.opts.clone();
-        let (peer, client) = if write { w.add_peer(Box::new(Writer::new(xc, data.to_vec())), srv.v6, 0) } else { w.add_peer(Box::new(Reader::new(xc)), srv.v6, 0) };
-        desc.push_str(&format!("{}{:?}{:?} ", if write { "W" } else { "R" }, name, sent_opts));
+        // a client may use one socket for several requests in a row (the earlier transfer is long over)
+        let reuse = if i > 0 && d.chance("swarm.req.reuse_endpoint", 1, 3) { Some(reqs[d.range("swarm.req.reuse_which", i as u32) as usize].peer) } else { None };
+        let (peer, client) = match (write, reuse) {
+            (true, None) => w.add_peer(Box::new(Writer::new(xc, data.to_vec())), srv.v6, 0),
+            (false, None) => w.add_peer(Box::new(Reader::new(xc)), srv.v6, 0),
+            (true, Some(k)) => w.add_peer_on(Box::new(Writer::new(xc, data.to_vec())), k),
+            (false, Some(k)) => w.add_peer_on(Box::new(Reader::new(xc)), k),
+        };
+        desc.push_str(&format!("{}{:?}{:?}{} ", if write { "W" } else { "R" }, name, sent_opts, if reuse.is_some() { "(same socket as an earlier request)" } else { "" }));
         reqs.push(ReqInfo { client, peer, write, name: name.to_string(), content: data, tolerate_stale_data: false });
         w.start_peer_at(peer, 10 * MS + i as Ns * GAP);
     }
